@@ -60,6 +60,7 @@ const prop_def prop_C03 = { "C03", NULL, c03_run, qprog_counter_names,
 static void c04_run(void) {
 	qgen g; qgen_defaults(&g);
 	g.oracles = O_BARRIER;
+	g.blockobj = 1;
 	g.qkindmask = 1u << QK_CONC; g.min_queues = 1; g.max_queues = 1; g.single_queue = 1;
 	g.width_pct = 30;
 	g.opmask |= (1u << OP_APPLY) | (1u << OP_BARRIER_AAW);
